@@ -127,8 +127,13 @@ def run_member_driver(ctx, scripts, prop, label, par):
     dr = ctx.go_test("c17_member", run="TestDriver", infile=inp, timeout=600,
                      tags="verif,verifhooks" if hooks else "verif",
                      env={"VERIF_TRACE": trace, "VERIF_PROP": prop, "VERIF_PAR": par})
+    nviol = len(ctx.violations)
     if hooks and os.path.exists(trace) and os.path.getsize(trace) > 0:
         c01.validate(ctx, trace, label, 0, prop=prop)
+    lag = dr.extra.get("lagging") or []
+    if lag and len(ctx.violations) == nviol:
+        raise vcheck.Infra("a live member did not reach the committed pinset and the recorded events show no property breach "
+                           "(availability, not a verdict): %s" % lag[0])
     elif not hooks:
         ctx.log("verif hooks absent in %s: API-level observations only (no trace validation)" % ctx.repo)
         ctx.extra["trace_validation"] = "skipped (hooks absent in VERIF_REPO)"
@@ -152,7 +157,7 @@ def run(ctx):
         ctx.tlc("RaftMembership.tla", write_cfg(ctx, "thorough", 4, 2, 3, 5, 2), workers=12, timeout=3000)
     ctx.exhaustive = True
     gen_cfg = write_cfg(ctx, "gen", 3, 2, 3, 4, 1, check=False)
-    scripts = scripts_from_graph(ctx, rng, gen_cfg, 16 if ctx.quick() else 120, 8)
+    scripts = scripts_from_graph(ctx, rng, gen_cfg, 24 if ctx.quick() else 500, 8)
     ctx.log("selected %d scripts covering %s" % (len(scripts), ctx.extra.get("membership_kinds_covered")))
     run_member_driver(ctx, scripts, "C17", "c17", 8)
 
